@@ -67,6 +67,16 @@ def rel_misfire(silent):
     return ("rel-misfire-wrong-type" if silent else "rel-misfire"), [f], [f], ["regression:rel.nested_named_like_toplevel (fixed 2f90e4e)"]
 
 
+def module_named_field():
+    money = File(f"{D}/money.proto", P)
+    m = money.message("Money"); m.field("units", 1, "int64").field("currency", 2, "string")
+    f = File(f"{D}/orders.proto", P, deps=[f"{D}/money.proto"])
+    order = f.message("Order"); line = order.nested("Line")
+    line.field("money", 1, m.fqn).field("discounts", 2, m.fqn, repeated=True)
+    order.field("lines", 1, line.fqn, repeated=True).field("id", 2, "string")
+    return "nested-field-named-like-module", [money, f], [money, f], ["alias forced only by a NESTED message's field name (Proto.names over all_messages)"]
+
+
 def enum_negative():
     f = File(f"{D}/main.proto", P)
     e = f.enum("Temp", ["TEMP_UNSPECIFIED", ("HOT", 1), ("COLD", -1)])
@@ -78,7 +88,7 @@ def main():
     d = os.path.join(env.VERIF, "corpus", "C02")
     os.makedirs(d, exist_ok=True)
     for name, files, togen, feats in [kitchen_sink(), pb2_clash(False), pb2_clash(True), pb2_clash(False, "fab.baz"),
-                                      rel_misfire(False), rel_misfire(True),
+                                      rel_misfire(False), rel_misfire(True), module_named_field(),
                                       enum_negative()]:
         req = apigen.request(files, to_generate=[f.proto.name for f in togen], parameter="transport=grpc")
         with open(os.path.join(d, name + ".json"), "w") as fh:
